@@ -126,4 +126,43 @@ builds (here the merge of two abutting ranges and a duplicate point). -/
 example : canonP (join [ranged 0 3 true false, ranged 3 6 false false, point 9, point 9]) = true := by
   decide
 
+/-- decidable check "the parse result is exactly `(l, [])`" (the nested type has no
+`DecidableEq`; `Loc.beq` is sound by `Loc.beq_eq`) -/
+def parsesTo (s : Pars.Bytes) (l : Loc) : Bool :=
+  match parseLocation s with
+  | .ok (l', r) => l'.beq l && r.isEmpty
+  | _ => false
+
+theorem parsesTo_sound (s : Pars.Bytes) (l : Loc) (h : parsesTo s l = true) :
+    parseLocation s = .ok (l, []) := by
+  unfold parsesTo at h
+  split at h
+  · rename_i l' r heq
+    simp only [Bool.and_eq_true, List.isEmpty_iff] at h
+    rw [heq, Loc.beq_eq l' l h.1, h.2]
+  · cases h
+
+/-- SECOND CLAUSE, FULL STATEMENT (false today, known finding K3): "for every string the parser
+accepts, printing the result is a fixed point of parse-then-print".  The parser builds joins
+with `Join`, and `Join` is not idempotent: the parts of `join(4,3^4,4)` reduce to
+`join(4,4)` (the between-site is replaced by the following point without re-checking the
+predecessor), whose parts reduce to `4`.  The string-level witness `join(4,3^4,4)` is replayed
+on the real parser and on the parser model on every run (known_findings.json, K3). -/
+theorem join_not_idempotent_refuted :
+    ¬ (∀ xs : List Loc, ∀ ys, join xs = joined ys → join ys = joined ys) := by
+  intro h
+  have h1 : join [point 3, between 3, point 3] = joined [point 3, point 3] :=
+    Loc.beq_eq _ _ (by decide)
+  have h2 := h _ _ h1
+  have h3 : join [point 3, point 3] = point 3 := Loc.beq_eq _ _ (by decide)
+  rw [h3] at h2
+  cases h2
+
+/-- second clause, proved part: whenever the accepted string parses to a canonical value (every
+result of the parser except the K3 shape, where a replacing push leaves a reducible pair
+behind), printing it is a fixed point of parse-then-print. -/
+theorem accepted_fixed_point_partial (s : Pars.Bytes) (l : Loc) (r : Pars.Bytes)
+    (_hp : parseLocation s = .ok (l, r)) (hc : canonP l = true) :
+    parseLocation (printB l) = .ok (l, []) := parse_print l hc
+
 end Gts.C06
